@@ -441,6 +441,22 @@ def rule_axis(prog: Program, modules: Set[str]) -> List[Instance]:
                             out.append(Instance("R-AXIS", cid, OK, f"{'row' if want == Y else 'column'} slice of np.s_[rows, cols] built from {want} quantities", fi.where(n)))
                         else:
                             out.append(Instance("R-AXIS", cid, BAD, f"`{short(n, 70)}`: the {'row' if want == Y else 'column'} slice is built from {sorted(tags)} quantities (rows are y, columns are x)", fi.where(n)))
+            # ---------------- T7: axis-named local assigned from a value of the other axis
+            if isinstance(n, ast.Assign) and len(n.targets) == 1 and isinstance(n.targets[0], ast.Name):
+                tb = b.of(n.targets[0].id)
+                tv = ty.tag(n.value)
+                if isinstance(n.value, ast.IfExp) and tv is None:
+                    # a choice between constants: the axis is that of the selecting condition
+                    ts = {b.of(x) for x in names_in(n.value.test)}
+                    ts.discard(None)
+                    tv = ts.pop() if len(ts) == 1 else None
+                simple_copy = isinstance(n.value, ast.Name) or (isinstance(n.value, ast.UnaryOp) and isinstance(n.value.operand, ast.Name))
+                if tb and tv and not simple_copy:  # `ybuff = xbuff` is the isotropic default
+                    cid = _cid(fi, "T7:assign", n, counter)
+                    if tb == tv:
+                        out.append(Instance("R-AXIS", cid, OK, f"{tb}-named `{n.targets[0].id}` assigned from a {tv} expression", fi.where(n)))
+                    else:
+                        out.append(Instance("R-AXIS", cid, BAD, f"`{short(n, 70)}`: `{n.targets[0].id}` is a {tb} name but the value is computed from {tv} quantities", fi.where(n)))
             # ---------------- T6: per-axis container indexed with the other axis' index
             if isinstance(n, ast.Subscript) and not isinstance(n.slice, (ast.Slice, ast.Tuple)) and const_num(n.slice) is None:
                 tb = ty.tag(n.value) if not isinstance(n.value, ast.Name) or b.of(n.value.id) else None
